@@ -110,8 +110,9 @@ void VERIF_mpi_send_hook(Comm *c, int dest, int tag, _Bool has_value, int value)
   }
 }
 
-/* type invariant of MPIMaster (from the constructor: wait_statuses(Nprocs), workers_finish(Nprocs,false),
- * Ntasks = task_numbers.size(), Nprocs = worker_pool.size()); worker_pool / task_numbers are pools (distinct ids) */
+/* type invariant of MPIMaster: ESTABLISHED by the constructors (section 3b: wait_statuses / workers_finish have Nprocs entries,
+ * Ntasks = task_numbers.size(), Nprocs = worker_pool.size(), Comm = the caller's communicator); worker_pool / task_numbers are pools
+ * (distinct ids: pre-condition of the 3-argument constructor, strictly increasing by construction in _autorange_*) */
 /* (a) the scalar facts -- exactly what the constructor must establish (ensures of MPIMaster::MPIMaster below) */
 #define MASTER_WF_SC(m) ((m)->Ntasks <= MPI_MAXN && (m)->Nprocs <= MPI_MAXN && \
          (m)->task_numbers.pool == 2 && (m)->worker_pool.pool == 1 && VERIF_pool_sealed[1] && VERIF_pool_sealed[2] && \
@@ -196,7 +197,7 @@ __CPROVER_ensures(self->WorkerIndices.size == __CPROVER_old(self->WorkerIndices.
                   self->WorkerIndices.gpresent == __CPROVER_old(self->WorkerIndices.gpresent) && self->WorkerIndices.gval == __CPROVER_old(self->WorkerIndices.gval))
 //@end
 
-//@harness h_order_worker enforce=MPIMaster_order_worker props=C16 min_obl=900 reach=3 timeout=120
+//@harness h_order_worker enforce=MPIMaster_order_worker props=C16 min_obl=895 reach=3 timeout=120
 void h_order_worker(void)
 {
   struct MPIMaster *m; int worker, job;
@@ -259,7 +260,7 @@ __CPROVER_loop_invariant(MPI_n_outstanding >= 0 && MPI_n_outstanding <= (long)se
 __CPROVER_decreases(self->WorkerStack.size)
 //@end
 
-//@harness h_order enforce=MPIMaster_order props=C16 min_obl=1770 reach=3 timeout=300
+//@harness h_order enforce=MPIMaster_order props=C16 min_obl=1755 reach=3 timeout=300
 void h_order(void)
 {
   struct MPIMaster *m;
@@ -314,7 +315,7 @@ __CPROVER_loop_invariant((unsigned long)((long)p + 1) == self->Nprocs || self->W
 __CPROVER_decreases((long)p + 1)
 //@end
 
-//@harness h_fill_stack enforce=MPIMaster_fill_stack_ props=C16 min_obl=1225 reach=2 timeout=120
+//@harness h_fill_stack enforce=MPIMaster_fill_stack_ props=C16 min_obl=1236 reach=2 timeout=120
 void h_fill_stack(void)
 {
   struct MPIMaster *m;
@@ -331,7 +332,7 @@ void h_fill_stack(void)
  * 0 = MPI_COMM_WORLD = what a default-constructed communicator is) and, through fill_stack_ (used by its CONTRACT), MINV.
  * Pre-condition: the two vectors hold pairwise distinct ids (pools 1 and 2).  The ghost selections of the containers created inside
  * are prophecy ghosts of stubs/mpi.h, tied here to the ghost worker / job. */
-#define CTOR_GHOSTS(comm) (MPI_n_stack_ctor % 2 == 0 && MPI_n_stack_ctor <= MPI_MAXN && MPI_new_stack_gval[0] == g_job && MPI_new_stack_gval[1] == g_w && \
+#define CTOR_GHOSTS(comm) (MPI_n_stack_ctor % 2 == 0 && MPI_new_stack_gval[0] == g_job && MPI_new_stack_gval[1] == g_w && \
          MPI_new_stack_pool[0] == 0 && MPI_new_stack_pool[1] == 1 && MPI_new_intmap_gkey == (long)g_job && MPI_new_ulmap_gkey == (long)g_w && \
          (comm)->g_vtag == Work && (comm)->g_value == g_job && (comm)->n_tag_value == 0 && (comm)->g_dest == g_w && (comm)->g_tag == Finish && (comm)->n_dest_tag == 0 && \
          (comm)->n_sends <= MPI_MAXN && MPI_n_outstanding == 0 && MPI_n_posted <= MPI_MAXN && g_jmult <= 1)
@@ -347,7 +348,7 @@ void h_fill_stack(void)
 //@function pMPI::MPIMaster::MPIMaster(boost::mpi::communicator const&, std::vector<int, std::allocator<int> >, std::vector<int, std::allocator<int> >) as MPIMaster_ctor3
 //@contract
 __CPROVER_requires(__CPROVER_is_fresh(self, sizeof(*self)) && __CPROVER_is_fresh(comm, sizeof(*comm)))
-__CPROVER_requires(worker_pool.size <= MPI_MAXN && task_numbers.size <= MPI_MAXN &&
+__CPROVER_requires(!VERIF_thrown && worker_pool.size <= MPI_MAXN && task_numbers.size <= MPI_MAXN &&
                    __CPROVER_is_fresh(worker_pool.data, worker_pool.size * sizeof(int)) && __CPROVER_is_fresh(task_numbers.data, task_numbers.size * sizeof(int)))
 /* the vectors are pools: pairwise distinct ids */
 __CPROVER_requires(worker_pool.pool == 1 && task_numbers.pool == 2 && VERIF_pool_sealed[1] && VERIF_pool_sealed[2] &&
@@ -365,7 +366,7 @@ __CPROVER_ensures(__CPROVER_is_fresh(self->wait_statuses.data, self->Nprocs * si
 __CPROVER_ensures(CTOR_POST(self))
 //@end
 
-//@harness h_master_ctor enforce=MPIMaster_init3 replace=MPIMaster_fill_stack_ props=C16 min_obl=100 reach=1 timeout=240
+//@harness h_master_ctor enforce=MPIMaster_init3 replace=MPIMaster_fill_stack_ props=C16 min_obl=1330 reach=1 timeout=240
 void h_master_ctor(void)
 {
   struct MPIMaster *m; Comm *c; IntVec wp, tn;
@@ -433,9 +434,9 @@ __CPROVER_assigns(p, out.size, __CPROVER_object_whole(out.data))
 __CPROVER_loop_invariant(p <= (unsigned long)comm->size_)
 __CPROVER_decreases((unsigned long)comm->size_ - p)
 //@end
-//@harness h_autorange_tasks enforce=autorange_tasks_proved props=C16 min_obl=50 reach=1 timeout=60
+//@harness h_autorange_tasks enforce=autorange_tasks_proved props=C16 min_obl=139 reach=1 timeout=60
 void h_autorange_tasks(void) { unsigned long n; autorange_tasks_proved(n); REACH("exit"); }
-//@harness h_autorange_workers enforce=autorange_workers_proved props=C16 min_obl=50 reach=2 timeout=60
+//@harness h_autorange_workers enforce=autorange_workers_proved props=C16 min_obl=263 reach=2 timeout=60
 void h_autorange_workers(void) { Comm *c; _Bool ib; autorange_workers_proved(c, ib); if (VERIF_thrown) REACH("thrown"); else REACH("exit"); }
 
 /* ---- MPIMaster::swap (no contract: inlined) and the two delegating constructors
@@ -491,14 +492,14 @@ __CPROVER_ensures(VERIF_thrown || CTOR_POST(self))
 //@end
 #undef NTASKS
 
-//@harness h_master_ctor_ntasks enforce=MPIMaster_init3n replace=MPIMaster_init3,_autorange_workers,_autorange_tasks props=C16 min_obl=100 reach=2 timeout=240
+//@harness h_master_ctor_ntasks enforce=MPIMaster_init3n replace=MPIMaster_init3,_autorange_workers,_autorange_tasks props=C16 min_obl=1531 reach=2 timeout=240
 void h_master_ctor_ntasks(void)
 {
   struct MPIMaster *m; Comm *c; unsigned long n; _Bool ib;
   MPIMaster_init3n(m, c, n, ib);
   if (VERIF_thrown) REACH("thrown"); else REACH("exit");
 }
-//@harness h_master_ctor_tasks enforce=MPIMaster_init3v replace=MPIMaster_init3,_autorange_workers props=C16 min_obl=100 reach=2 timeout=240
+//@harness h_master_ctor_tasks enforce=MPIMaster_init3v replace=MPIMaster_init3,_autorange_workers props=C16 min_obl=1526 reach=2 timeout=240
 void h_master_ctor_tasks(void)
 {
   struct MPIMaster *m; Comm *c; IntVec tn; _Bool ib;
@@ -556,7 +557,7 @@ __CPROVER_loop_invariant(g_wp < 0 || ((long)i <= g_wp
 __CPROVER_decreases(self->Nprocs - i)
 //@end
 
-//@harness h_check_workers enforce=MPIMaster_check_workers props=C16 min_obl=1690 reach=4 timeout=300
+//@harness h_check_workers enforce=MPIMaster_check_workers props=C16 min_obl=1692 reach=4 timeout=300
 void h_check_workers(void)
 {
   struct MPIMaster *m;
@@ -577,7 +578,7 @@ __CPROVER_ensures(__CPROVER_return_value || (VERIF_acc_witness < self->Nprocs &&
 __CPROVER_ensures(self->Nprocs != 0 || __CPROVER_return_value)
 //@end
 
-//@harness h_master_is_finished enforce=MPIMaster_is_finished props=C16 min_obl=338 reach=2 timeout=60
+//@harness h_master_is_finished enforce=MPIMaster_is_finished props=C16 min_obl=342 reach=2 timeout=60
 void h_master_is_finished(void)
 {
   struct MPIMaster *m;
@@ -656,9 +657,9 @@ __CPROVER_ensures((self->Comm.g_dest == self->boss && self->Comm.g_tag == Pendin
 void h_worker_is_finished(void) { struct MPIWorker *w; MPIWorker_is_finished(w); REACH("exit"); }
 //@harness h_worker_is_working enforce=MPIWorker_is_working props=C16 min_obl=33 reach=1 timeout=60
 void h_worker_is_working(void) { struct MPIWorker *w; MPIWorker_is_working(w); REACH("exit"); }
-//@harness h_receive_order enforce=MPIWorker_receive_order props=C16 min_obl=318 reach=3 timeout=60
+//@harness h_receive_order enforce=MPIWorker_receive_order props=C16 min_obl=316 reach=3 timeout=60
 void h_receive_order(void) { struct MPIWorker *w; MPIWorker_receive_order(w); REACH("exit"); }
-//@harness h_report_job_done enforce=MPIWorker_report_job_done props=C16 min_obl=262 reach=2 timeout=60
+//@harness h_report_job_done enforce=MPIWorker_report_job_done props=C16 min_obl=259 reach=2 timeout=60
 void h_report_job_done(void) { struct MPIWorker *w; MPIWorker_report_job_done(w); REACH("exit"); }
 
 /* ---------------------------------------------------------------- 5c. MPIWorker::MPIWorker(comm, boss)
@@ -700,7 +701,7 @@ __CPROVER_requires(*ROOT == 0 && comm->rank_ != 0 && self->parts.size <= MPI_MAX
 __CPROVER_requires(job_map->size == 0 && !job_map->gpresent && job_map->inv_pool == 0)
 /* what the root sends (assumed, see above) */
 __CPROVER_requires(MPI_bcast_k == 0 && MPI_bcast_len[0] == MPI_bcast_len[1] && MPI_bcast_len[0] <= MPI_MAXN)
-__CPROVER_requires(MPI_bcast_pool[0] == 2 && MPI_bcast_pool[1] == 0 && VERIF_pool_size[2] == MPI_bcast_len[0])
+__CPROVER_requires(MPI_bcast_pool[0] == 2 && MPI_bcast_pool[1] == 0 && VERIF_pool_size[2] == MPI_bcast_len[0] && VERIF_pool_sealed[2] && MPI_new_vec1_pool == 0)
 __CPROVER_requires(MPI_bcast_gidx >= MPI_bcast_len[0] || (job_map->gkey == (long)MPI_bcast_gval[0] && POOL_IDX(2, MPI_bcast_gval[0]) == (long)MPI_bcast_gidx))
 __CPROVER_assigns(job_map->size, job_map->gpresent, job_map->gval, job_map->other, MPI_bcast_k)
 /* the ghost entry is in the map; a key that is not among the jobs is not */
@@ -714,7 +715,7 @@ __CPROVER_loop_invariant(MPI_bcast_gidx >= MPI_bcast_len[0] || (i <= MPI_bcast_g
 __CPROVER_decreases(jobs.size - i)
 //@end
 
-//@harness h_run_disseminate_worker enforce=run_disseminate_worker props=C16 min_obl=417 reach=2 timeout=60
+//@harness h_run_disseminate_worker enforce=run_disseminate_worker props=C16 min_obl=430 reach=2 timeout=60
 void h_run_disseminate_worker(void)
 {
   struct mpi_skel *s; Comm *c; unsigned long *root; IntMap *jm;
@@ -730,7 +731,7 @@ void h_run_disseminate_worker(void)
 //@contract
 __CPROVER_requires(__CPROVER_is_fresh(job_map, sizeof(*job_map)) && __CPROVER_is_fresh(disp, sizeof(*disp)) && __CPROVER_is_fresh(comm, sizeof(*comm)) && __CPROVER_is_fresh(ROOT, sizeof(*ROOT)))
 __CPROVER_requires(__CPROVER_is_fresh(disp->p, sizeof(struct MPIMaster)))
-__CPROVER_requires(*ROOT == 0 && comm->rank_ == 0 && MPI_bcast_k == 0 && disp->p->DispatchMap.size <= MPI_MAXN)
+__CPROVER_requires(*ROOT == 0 && comm->rank_ == 0 && MPI_bcast_k == 0 && disp->p->DispatchMap.size <= MPI_MAXN && MPI_new_vec1_pool == 0)
 /* the ghost index is the iteration position of the ghost key (if it is present), arbitrary otherwise */
 __CPROVER_requires(!disp->p->DispatchMap.gpresent || (MPI_bcast_gidx == disp->p->DispatchMap.gpos && disp->p->DispatchMap.gpos < disp->p->DispatchMap.size))
 __CPROVER_assigns(*job_map, MPI_bcast_k, __CPROVER_object_whole(MPI_bcast_len), __CPROVER_object_whole(MPI_bcast_gval))
@@ -749,7 +750,7 @@ __CPROVER_loop_invariant((unsigned long)i <= MPI_bcast_gidx || MPI_bcast_gidx >=
 __CPROVER_decreases(workers.size - (unsigned long)i)
 //@end
 
-//@harness h_run_disseminate_root enforce=run_disseminate_root props=C16 min_obl=829 reach=2 timeout=90
+//@harness h_run_disseminate_root enforce=run_disseminate_root props=C16 min_obl=842 reach=2 timeout=90
 void h_run_disseminate_root(void)
 {
   IntMap *jm; MasterPtr *d; Comm *c; unsigned long *root;
@@ -791,6 +792,13 @@ void h_run_disseminate_root(void)
  *                           Status = Work                                                      postcondition.1
  * h_worker_is_finished/_is_working   compare with the wrong tag                                postcondition.1
  * h_worker_ctor             Status(Work) ; current_job_(0) ; irecv(id, ...)                    postcondition.1 (/.2)
+ * h_master_ctor             wait_statuses(Ntasks) [seeded]                                     init3.postcondition.3/.4, fill_stack_.precondition.1 (Master_wf at the call)
+ *                           workers_finish(Nprocs,true); Comm(comm) dropped; Nprocs(task_numbers.size())   init3.postcondition.4 / .1 / .2 (+ fill_stack_ pre-conditions)
+ * h_master_ctor_ntasks      Comm(comm) dropped [seeded]                                        init3n.postcondition.2/.3 (Comm.id == comm.id)
+ *                           swap of wait_statuses / of Nprocs dropped                          init3n.postcondition.3 / .2
+ * h_master_ctor_tasks       Comm(comm) dropped                                                 init3v.postcondition.2/.3
+ * h_autorange_workers       rank() == p ; Nprocs(comm.size())                                  loop_invariant_step.1/.2 ; postcondition.1
+ * h_autorange_tasks         out[i] = 0                                                         loop_invariant_step.2
  * h_run_disseminate_worker  job_map[workers[i]] = jobs[i]                                      loop_invariant_step.3
  *                           loop from i=1                                                      postcondition.1, loop_invariant_base.2
  *                           i < parts.size()                                                   postcondition.1, IntVec_at bounds, loop_invariant_step.1
